@@ -129,6 +129,66 @@ def unsatAgeOf (st : ExpStore) (now : Nat) (ck : String) : Option Nat :=
   | some e => e.firstUnsat.map (now - ·)
   | none => none
 
+/-! ### dynamic watch registry: what the recording controller and the registry hook saw -/
+
+/-- one reconcile of the real controller -/
+structure WRec where
+  r : Nat
+  gvk : String
+  /-- outcome of every `Watch` call the reconcile made (true = success) -/
+  attempts : List Bool
+  /-- non-static kinds in `watchedWorkload` when the reconcile returned -/
+  registry : List String
+  /-- the reconcile returned an error -/
+  err : Bool
+  /-- how many of the immediately preceding records ran while this reconcile's `Watch` call was in flight
+      (they come after its `Load`) -/
+  during : Nat
+  deriving Repr, DecidableEq, Inhabited
+
+/-- kinds for which some `Watch` call has succeeded -/
+def succKinds (recs : List WRec) : List String :=
+  recs.filterMap fun x => if x.attempts.any id then some x.gvk else none
+
+def sameSet (a b : List String) : Bool := a.all b.contains && b.all a.contains
+
+/-- `C19.watch_registered_iff_succeeded`: after every reconcile, the non-static kinds in the registry are exactly
+    the kinds for which a `Watch` call has succeeded (nothing is claimed without a watcher) -/
+def watchRegIffSucc (static : List String) (recs : List WRec) : Bool :=
+  (List.range recs.length).all fun i =>
+    match recs[i]? with
+    | some x => sameSet x.registry ((succKinds (recs.take (i + 1))).filter (!static.contains ·)).eraseDups
+    | none => true
+
+/-- `C19.watch_failed_not_registered`: a reconcile calls `Watch` exactly when, at its `Load`, the kind is not static
+    and no `Watch` call for it has succeeded yet — in particular after a failed call the next reconcile of *any*
+    rollout of that kind calls `Watch` again -/
+def watchRetried (static : List String) (recs : List WRec) : Bool :=
+  (List.range recs.length).all fun i =>
+    match recs[i]? with
+    | some x =>
+      let before := recs.take (i - x.during)
+      (!x.attempts.isEmpty) == (!static.contains x.gvk && !(succKinds before).contains x.gvk)
+    | none => true
+
+/-- `C19.watch_error_reported`: a failed `Watch` makes `Reconcile` return an error (so the request is retried) -/
+def watchErrReported (recs : List WRec) : Bool := recs.all fun x => !(x.attempts.any (!·)) || x.err
+
+/-- after each reconcile of rollout `r`: is a watcher for its kind established? -/
+def establishedSeq (static : List String) (r : Nat) (recs : List WRec) : List Bool :=
+  (List.range recs.length).filterMap fun i =>
+    match recs[i]? with
+    | some x => if x.r = r then some (static.contains x.gvk || (succKinds (recs.take (i + 1))).contains x.gvk) else none
+    | none => none
+
+/-- `C19.same_as_solo` for the watch registry.  The fault schedule belongs to each rollout (its k-th own `Watch` call
+    fails), so the solo run is the rollout's reconciles under its own schedule.  `shared`: another rollout has the
+    same non-static kind.  Not shared: the rollout has a watcher after its i-th reconcile in the joint run iff it
+    has one after its i-th reconcile alone.  Shared (registration is shared by design): other rollouts can only
+    help — whenever it has a watcher alone, it has one in the joint run. -/
+def watchSolo (shared : Bool) (joint solo : List Bool) : Bool :=
+  joint.length == solo.length && (joint.zip solo).all (fun p => !p.2 || p.1) && (shared || joint == solo)
+
 /-! ### API objects -/
 
 /-- the names of two rollouts' network objects do not run into each other: none of the four objects
